@@ -137,3 +137,33 @@ PROPS['C05'] = dict(
     technique='property-based testing (rapidcheck): differential against a geometry-derived neighbour graph + reference BFS; exhaustive coarse resolutions',
     assumptions=['geometric neighbour probes (engine/topo.hpp) define adjacency'],
 )
+
+PROPS['C08'] = dict(
+    src='props/C08.cpp', variants=['fast', 'asan'], level='exploration',
+    rule=('cells from the stress mixture (icosahedron-edge and pentagon-disk arms dominant) with all their geometric neighbours; complete strata: every cell of res 0..3 (4), k<=2 disks of all '
+          'pentagons at all res, all cells along the 30 icosahedron edges for res<=5 (7), whole-resolution area sums res 0..4 (6). '
+          'non-trivial = the cell or one of its neighbours is a pentagon or has a distortion vertex (boundary vertex count != 6), or a whole-resolution sum; distinct by cell'),
+    quick=dict(cases={'fast': 150_000, 'asan': 10_000}, enum={'fast': 8}),
+    thorough=dict(cases={'fast': 5_000_000, 'asan': 200_000}, enum={'fast': 16}),
+    strata=dict(quick=['all cells res 0..3', 'k=2 disks of 12 pentagons x 16 res', 'icosahedron-edge cells res 1..5', 'area sums res 0..4'],
+                thorough=['all cells res 0..4', 'icosahedron-edge cells res 1..7', 'area sums res 0..6']),
+    level_text=('vertex counts per class/parity, counter-clockwise fan triangles around the centre, vertex-for-vertex matching (1e-12 rad) of the stretch shared with every geometric neighbour traversed in reverse, '
+                'exact once-only coverage of every boundary segment, cellAreaRads2 against the binary128 spherical area of the boundary (rel 1e-9), unit conversions, and sum = 4*pi over whole coarse resolutions'),
+    level_note='trusted: binary128 spherical area (Van Oosterom-Strackee fan); geometric neighbour probes; tolerance 1e-9 relative on areas is >3 orders above the measured error (5.6e-12)',
+    technique='property-based testing (rapidcheck) with binary128 geometric oracles (shared-vertex matching, spherical area); exhaustive coarse resolutions',
+    assumptions=['great-circle edges between consecutive boundary vertices (statement)'],
+)
+
+PROPS['C19'] = dict(
+    src='props/C19.cpp', variants=['fast', 'asan'], level='exploration',
+    rule=('cells from the icosahedron-edge / pentagon-disk dominated mixture at all 16 res; complete strata: every cell of res 0..3 (5), k<=3 disks of all pentagons at all res, all cells '
+          '(with neighbours) along the 30 icosahedron edges for res<=6 (8). non-trivial = the oracle finds the cell interior on >=2 faces; distinct by cell'),
+    quick=dict(cases={'fast': 150_000, 'asan': 10_000}, enum={'fast': 8}),
+    thorough=dict(cases={'fast': 5_000_000, 'asan': 200_000}, enum={'fast': 16}),
+    strata=dict(quick=['all cells res 0..3', 'k=3 disks of 12 pentagons x 16 res', 'edge bands res 1..6'], thorough=['all cells res 0..5', 'edge bands res 1..8']),
+    level_text=('the reported face set is compared with a binary128 clipping oracle: the boundary polygon is clipped against each face region (nearest-face-centre cells); area share >1e-6 must be reported, '
+                '<1e-9 must not be, in between undecided; slot count, padding, distinctness and the 5 / 1-2 face counts are checked on guarded exact-size buffers'),
+    level_note='trusted: the 20 face-centre constants with the library numbering (cross-checked against the icosahedron derived from the pentagon centres); cellToBoundary as the cell shape (C08)',
+    technique='property-based testing (rapidcheck) with a binary128 polygon-clipping oracle; exhaustive coarse resolutions and icosahedron-edge bands',
+    assumptions=['face numbering constants are specification', 'undecided band 1e-9..1e-6 of the cell area'],
+)
